@@ -182,10 +182,12 @@ def valid (env : Env) (d : Draft) (s i : Json) : Bool := validN env d (s.size + 
 
 /-! ### shapes -/
 
+/-- an integer bound (drafts 6/7 also accept an integral float such as `2.0`); the bundled
+    Draft 3 metaschema puts no minimum on `maxLength`, so negativity is not part of the shape -/
 def isNonNegInt (d : Draft) (j : Json) : Bool :=
   match j with
-  | .num (.int v) => decide (0 ≤ v)
-  | .num n => (d = .d6 || d = .d7) && decide ((val n).den = 1) && decide (0 ≤ val n)
+  | .num (.int _) => true
+  | .num n => (d = .d6 || d = .d7) && decide ((val n).den = 1)
   | _ => false
 
 def isStrJ : Json → Bool | .str _ => true | _ => false
